@@ -9,7 +9,8 @@ RULE = ("all 8192 13-bit codes through common.altitude (exhaustive), each code e
         "k random contexts (every bit outside the AC field, address, hex case), all 4096 12-bit ADS-B fields x TC 9-18 / 20-22 (+ TC 5-8 -> 0) "
         "with random contexts; oracle: Q=1 -> 25N-1000, Q=0 -> inverse of a Gillham *encoder* over -1200..126700 ft (1280 codes) else None, "
         "M=1 -> |alt - 3.28084 N| < 1, zero -> None, GNSS height -> 3.28084 N; results must not depend on the context. "
-        "non-trivial = Q=0 or M=1 codes and illegal Gillham patterns (distinct by code and carrier)")
+        "non-trivial = Q=0 or M=1 codes and illegal Gillham patterns (distinct by code and carrier)"
+        ' Also: the common helpers called on the same string before the judged decoder and every call made twice (call history), one constant context per carrier so that consecutive frames differ in the field only, 937 real airborne-position frames (leg corpus).')
 ASSUMPTIONS = ["Gillham table produced by ref/gillham.py's encoder (Annex 10 reflected-binary 500 ft + 100 ft sub-code)",
                "metric altitudes are judged to < 1 ft because the decoder truncates the converted value"]
 
